@@ -75,6 +75,7 @@ typedef struct iom_obj_s {
   unsigned char *data;   /* contents (only when keep_data) */
   size_t len, cap;
   size_t preexisting;    /* bytes that existed (durably) before tracing started */
+  int snapshot;          /* 1 = the file existed before tracing started */
   int open_w;            /* number of descriptors open for writing */
   int creator_fd;        /* fd that created it and is still open (-1 otherwise) */
 } iom_obj_t;
